@@ -205,7 +205,8 @@ theorem arrange_empty {σ : Type} (cb : σ → BitVec 64 → BitVec 64 → M σ)
   have hk := sitesOf_ok s.cls
   have h' : (symbolsNum s).toNat = 0 := h
   unfold arrange
-  simp only [h', loop, scan1, scan2, hk.scan1Cond, hk.scan2Cond, hk.both, hk.fnlInit]
+  simp only [h', loop, hk.forever, Bool.not_true, Bool.false_eq_true, if_false, scan1, scan2, hk.scan1Cond,
+    hk.scan2Cond, hk.both, hk.fnlInit]
   simp only [Nat.not_lt_zero, decide_false, Bool.false_eq_true, if_false, Bool.and_self,
     hk.setInfo, hk.ret]
   rfl
